@@ -5,12 +5,14 @@ mod c01b;
 mod c02;
 mod c04;
 mod c05;
+mod c07;
 mod c11;
 mod c11walk;
 mod c12;
 mod c15;
 mod c18;
 mod compare;
+mod conc;
 mod hist;
 mod icept;
 mod real;
@@ -64,6 +66,10 @@ fn main() {
         "C05" => {
             report = Report::new("C05", "scenarios (history with several versions, garbage from deletes/interrupted runs); EVERY subset of (up to 5) existing versions x {dry-run, real}; for selected (thorough: all) real runs every crash point and every single failing read/list operation; non-trivial = something to delete or collect, or a crash/fault; distinct by scenario seed, subset and plan");
             c05::run(&tier, seed, &mut report);
+        }
+        "C07" => {
+            report = Report::new("C07", "a direct CreateNew test on the transport; histories (as C02, incl. interrupted and resumed backups) with byte-for-byte snapshots of the archive before/after every step; and two backups of differing sources racing on one archive under schedules (A runs i ops, B runs j, A runs k, for i,j<=10, plus random schedules); non-trivial = history with more than one backup / schedule in which both actors move; distinct by seed and schedule");
+            c07::run(&tier, seed, &mut report);
         }
         "C15" => {
             report = Report::new("C15", "(pattern set, apath) pairs: 1-3 exclusion patterns built from anchored/unanchored names, *, ?, ** in every position, classes, escapes, non-ASCII names, plus malformed patterns; apaths to depth 4 over a component alphabet; and (single glob, arbitrary string) pairs; non-trivial = the real code answers true; distinct by canonical text of the case");
